@@ -52,21 +52,32 @@ def parseOp : List String → Option Op
 structure St where
   c : Option C := none
   q : PB.ByteQueue.Q := []
+  /-- contents of the most recently split-off container (GetAsContainer / GetNextBlockAsContainer /
+      PeekContainer), as they were at the time of the split: a split container is a snapshot -/
+  kept : Option Bytes := none
 
 def handle (s : St) (line : String) : St × String :=
   match PB.Drv.words line with
   | "new" :: hs => match hexes hs with
-    | some ds => ({ c := some (new ds), q := ds.flatten }, "ok")
+    | some ds => ({ c := some (new ds), q := ds.flatten, kept := none }, "ok")
     | none => (s, "bad-op")
   | ["dump"] => match s.c with
     | some c => (s, if c.bytes = s.q then s!"b {toHex c.bytes}" else s!"SPECDIFF dump model={toHex c.bytes} spec={toHex s.q}")
     | none => (s, "bad-op")
+  | ["kdump"] => match s.kept with
+    | some b => (s, s!"b {toHex b}")
+    | none => (s, "nil")
   | ws => match s.c, parseOp ws with
     | some c, some op =>
       let r := step c op
       let r' := PB.ByteQueue.step s.q op
-      if r.2 = r'.2 then ({ c := some r.1, q := r'.1 }, showOut r.2)
-      else ({ c := some r.1, q := r'.1 }, s!"SPECDIFF model={showOut r.2} spec={showOut r'.2}")
+      let kept := match op, r.2 with
+        | .getAsContainer _, .bytes b => some b
+        | .getNextBlockAsContainer, .bytes b => some b
+        | .peekContainer _, .bytes b => some b
+        | _, _ => s.kept
+      if r.2 = r'.2 then ({ c := some r.1, q := r'.1, kept := kept }, showOut r.2)
+      else ({ c := some r.1, q := r'.1, kept := kept }, s!"SPECDIFF model={showOut r.2} spec={showOut r'.2}")
     | _, _ => (s, "bad-op")
 
 end PB.Drv.C16
